@@ -1545,6 +1545,12 @@ func (self *Analyzer) matchExpression(node pAst.MatchExpression) ast.AnalyzedMat
 		}
 	}
 
+	// without a default branch, a value that matches no arm falls through the `match`: even if every arm diverges,
+	// the expression as a whole does not (it results in `null`, like an `if` without `else`)
+	if defaultArm == nil && resultType.Kind() == ast.NeverTypeKind {
+		resultType = ast.NewNullType(node.Range)
+	}
+
 	return ast.AnalyzedMatchExpression{
 		ControlExpression: controlExpr,
 		Arms:              arms,
